@@ -77,6 +77,10 @@ func watchdog(r *run, onHang func(dump string)) {
 		dump := goroutineDump()
 		r.res.Dump = trimDump(dump)
 		onHang(dump)
+		if r.hangBenign && len(r.viol) == 0 {
+			r.res.Dump = ""
+			r.finish("ok", "fake-time budget exhausted with no obligation pending")
+		}
 		r.finish("violation", "fake-time budget exhausted")
 	}()
 }
